@@ -36,6 +36,9 @@ type c11File struct {
 type c11Case struct {
 	Loaders []map[string]c11File `json:"loaders"`
 	Root    string               `json:"root"`
+	// ReadFault: the first loader that has this name delivers a reader that breaks half way. A
+	// loader that has a name has won; its failure is an error, not a reason to ask the next one.
+	ReadFault string `json:"read_fault,omitempty"`
 }
 
 // all names live in this small universe (same base names in different directories)
@@ -372,6 +375,21 @@ func checkC11(c any, r *Rec) error {
 		}
 		return "root=" + cs.Root + sb.String()
 	}
+	if cs.ReadFault != "" {
+		// what must happen is what would happen if no loader had the name (an error, or nothing
+		// behind if_exists): in particular no other loader's file of that name may be used instead
+		gone := &c11Case{Root: cs.Root}
+		for _, m := range cs.Loaders {
+			m2 := map[string]c11File{}
+			for n, f := range m {
+				if n != cs.ReadFault {
+					m2[n] = f
+				}
+			}
+			gone.Loaders = append(gone.Loaders, m2)
+		}
+		ref.cs = gone
+	}
 	rootFile, ok := ref.lookup(cs.Root)
 	if !ok {
 		return skipf("root not present")
@@ -381,11 +399,33 @@ func checkC11(c any, r *Rec) error {
 	if werr == nil {
 		werr = ref.render(cs.Root, rootFile, &c11Env{cv: "C"}, &want, nil)
 	}
+	if cs.ReadFault != "" {
+		for i, m := range cs.Loaders {
+			if _, has := m[cs.ReadFault]; has {
+				lds[i].setFailRead(cs.ReadFault)
+				break
+			}
+		}
+	}
 	tpl, cerr := set.FromFile(cs.Root)
 	var got string
 	var xerr error
 	if cerr == nil {
 		got, xerr = tpl.Execute(ctx)
+	}
+	if cs.ReadFault != "" {
+		if werr != nil {
+			if cerr == nil && xerr == nil {
+				return fmt.Errorf("the first loader that has %s failed while it was read (and the name is not guarded by if_exists), yet the template rendered %q\n %s", cs.ReadFault, got, desc())
+			}
+		} else if cerr == nil && xerr == nil && got != want.String() {
+			return fmt.Errorf("the first loader that has %s failed while it was read; the template rendered %q, without that name it renders %q (was another loader's file used instead?)\n %s", cs.ReadFault, got, want.String(), desc())
+		}
+		if ref.visited[cs.ReadFault] {
+			r.Class("read-fault-on-a-used-name")
+			r.NonTrivial(desc() + cs.ReadFault)
+		}
+		return nil
 	}
 	if strings.Contains(got, "CANARY") || strings.Contains(errText(cerr)+errText(xerr), "CANARY") {
 		return fmt.Errorf("content of a file on the real file system (served by no loader) was used: %q\n %s", got, desc())
@@ -760,12 +800,15 @@ func genC11(t *rapid.T) *c11Case {
 		}
 	}
 	cs.Root = used[0]
+	if drawInt(t, 0, 7, "readfault") == 0 {
+		cs.ReadFault = pick(t, "faultname", used)
+	}
 	return cs
 }
 
 var _ = register(&propSpec{
 	ID:    "C11.compose",
-	Rule:  "virtual file trees (10 names with equal base names in different directories up to 3 deep), 1-3 loaders serving overlapping names with different contents, acyclic reference graphs over include (static / lazy, with pair, only, if_exists), extends (+ block override), import (+ call), ssi plain (content never parsed) and ssi parsed; names written rooted, relative (incl. ..) and rooted with a detour; references to names no loader serves (by every tag; also from inside the target of an if_exists include, which if_exists does not forgive); includer variables (context, set, with pair, a set of the very name a pair passes) probed in every file. The worker's working directory holds canary files at the same relative paths, and two of the virtual names also exist as absolute paths of the real file system (canary content); none of them is served by a loader. Oracle: reference composition (first loader having a name wins; relative names resolve against the referring file; missing => error, or nothing with if_exists; only hides includer variables), the loaders' Get logs contain no name outside the referenced set and everything used was fetched, no canary text ever appears; then the content of every file changes and a fresh FromFile of the root must show the new content by every route (literal and computed names alike). Non-trivial: loaders disagree on a name, or a relative reference crosses directories, or only / if_exists present.",
+	Rule:  "virtual file trees (10 names with equal base names in different directories up to 3 deep), 1-3 loaders serving overlapping names with different contents, acyclic reference graphs over include (static / lazy, with pair, only, if_exists), extends (+ block override), import (+ call), ssi plain (content never parsed) and ssi parsed; names written rooted, relative (incl. ..) and rooted with a detour; a reader that breaks half way in the first loader that has a name (must be an error, not a reason to ask the next loader); references to names no loader serves (by every tag; also from inside the target of an if_exists include, which if_exists does not forgive); includer variables (context, set, with pair, a set of the very name a pair passes) probed in every file. The worker's working directory holds canary files at the same relative paths, and two of the virtual names also exist as absolute paths of the real file system (canary content); none of them is served by a loader. Oracle: reference composition (first loader having a name wins; relative names resolve against the referring file; missing => error, or nothing with if_exists; only hides includer variables), the loaders' Get logs contain no name outside the referenced set and everything used was fetched, no canary text ever appears; then the content of every file changes and a fresh FromFile of the root must show the new content by every route (literal and computed names alike). Non-trivial: loaders disagree on a name, or a relative reference crosses directories, or only / if_exists present.",
 	Gen:   func(t *rapid.T) any { return genC11(t) },
 	New:   func() any { return &c11Case{} },
 	Check: checkC11,
